@@ -13,7 +13,7 @@ pub ghost struct Net {
 }
 // one observable effect on the file system / child processes, in program order
 pub ghost enum FsEvent {
-    Hook { ty: int, data: int },                       // hooks::call(.., data, ty): ty = hook_type_id, data = opaque identity of the hook data
+    Hook { ty: int, data: int, ok: bool },             // hooks::call(.., data, ty): ty = hook_type_id, data = opaque identity of the hook data, ok = every hook run succeeded (or may fail)
     Open { path: Seq<char>, mode: u32, created: bool, truncated: bool },
     Write { path: Seq<char> },
     Chown { path: Seq<char>, uid: Option<u32>, gid: Option<u32> },
